@@ -106,6 +106,9 @@ class BuiltinMixin:
         vals = [self.eval(x, st) for x in e.elts]
         if not vals:
             return self.new_list(None, st)
+        if all(v.ty.name == "Tuple" for v in vals):
+            # a literal list of tuples (e.g. (name, value-or-None) pairs): a static sequence (any attempt to mutate it is unsupported)
+            return Val(TupleT([v.ty for v in vals]), vals, was_list=True)
         if any(v.ty == FN for v in vals):
             # a literal list of functions / classes (a dispatch table): kept as a static sequence
             return Val(TupleT([v.ty for v in vals]), vals, was_list=True)
@@ -662,6 +665,26 @@ class BuiltinMixin:
             c = (b2 > a2) if is_max else (b2 < a2)
             res = self.merge_vals(c, b, res)
         return res
+
+    def x_bi_zip(self, args, kw, st, node):
+        """zip of static sequences (tuples / literal lists of tuples): the static sequence of the transposed tuples."""
+        if not all(isinstance(a, Val) and a.ty.name == "Tuple" for a in args):
+            raise Unsupported("zip of sequences of unknown length (outside a for loop)")
+        if not args:
+            return Val(TupleT([]), [], was_list=True)
+        n = min(len(a.t) for a in args)
+        rows = [Val(TupleT([a.t[i].ty for a in args]), [a.t[i] for a in args]) for i in range(n)]
+        return Val(TupleT([r.ty for r in rows]), rows, was_list=True)
+
+    def m_str_join(self, recv, args, kw, st, node):
+        """sep.join(static sequence of strings)"""
+        seq = args[0]
+        if seq.ty.name != "Tuple" or any(x.ty != STR for x in seq.t):
+            raise Unsupported("str.join over a sequence of unknown length")
+        out = None
+        for x in seq.t:
+            out = x.t if out is None else z3.Concat(out, recv.t, x.t)
+        return Val(STR, z3.simplify(out) if out is not None else z3.StringVal(""))
 
     def x_bi_bool(self, args, kw, st, node):
         return Val(BOOL, self.truth(args[0], st)) if args else mk_bool(False)
